@@ -269,6 +269,12 @@ def r4_activation(ctx):
     loops = q.loop_with_source(a, lambda s: True)
     SRC = "Tree::iter(CoinMapping::inner($1.coins))"
     loops = [l for l in loops if sig(l[3]) == SRC]
+    if not loops:
+        # `inner.iter().for_each(|(k, v)| ..)`: the per-entry step is a closure
+        fe = [(bi, e) for bi, e in q.call_exprs(a, "for_each") if len(e[2]) == 2 and sig(mir.strip(e[2][0])) == SRC and e[2][1][0] == "closure"]
+        if len(fe) == 1:
+            _r4_closure_step(ctx, r, a, fe[0][1][2][1][1], SRC)
+            return
     r.check(len(loops) == 1, "init/loop", "loops over the whole old coin tree", "no loop over %s" % SRC)
     for (h, blocks, latches, src) in loops:
         icc = [(bi, e) for bi, e in q.call_exprs(a, "insert_coin_count") if bi in blocks]
@@ -300,6 +306,31 @@ def r4_activation(ctx):
         exits = [(x, s) for x in blocks for s in a.succs(x) if s not in blocks]
         bad = [x for (x, s) in exits if not (x == h or x in a.succs(h))]
         r.check(not bad, "init/no-break", "no early exit", "early exit from bb%s" % bad)
+
+
+def _r4_closure_step(ctx, r, a, cname, SRC):
+    """the same per-entry clauses as the loop form, read in the closure handed to for_each over the old coin tree"""
+    c = ctx.prog.body(cname)
+    r.anchor(c, "per-entry closure of apply_tip_906_for_next_state")
+    r.ok("init/loop", "for_each over the whole old coin tree")
+    caps = q.closure_captures(a, cname)
+    R = lambda e: q.subst(e, {}, caps)
+    icc = q.call_exprs(c, "insert_coin_count")
+    r.check(len(icc) == 1, "init/update", "one count update per entry", "%d updates per entry" % len(icc))
+    CH = 'Result::expect(stdcode::deserialize($2.1), "pre-tip906 coin tree has non-cdh elements?!").coin_data.covhash'
+    for bi, e in icc:
+        r.check(sig(R(e[2][1])) == CH, "init/covhash", "keyed by the entry's covenant hash", "keyed by %s" % sig(R(e[2][1])), c.where(bi))
+        l = q.lin(R(e[2][2]), lambda x: "count" if sig(x) == "CoinMapping::coin_count($1.coins, %s)" % CH else None)
+        if l == q.Lin({"count": 1}, 1):
+            r.ok("init/value", "count + 1", c.where(bi))
+        else:
+            r.undecided("init/value", "new count = %r in the closure spelling: not decided" % l, c.where(bi))
+        for cbi, ct in q.calls_to(c, "coin_count"):
+            root = q.raw_root(c, ct["args"][0])
+            r.check(root[0] != "clone", "init/live-count", "the running count is read from the live mapping",
+                    "the running count is read from a copy of the coin mapping made at %s" % (root[2] if root[0] == "clone" else "?"), c.where(cbi))
+        wo = c.reachable(0, removed=[bi])
+        r.check(not any(x in wo for x in c.return_blocks()), "init/every-entry", "every entry updates a count", "an entry can skip the update", c.where(bi))
 
 
 def shared(ctx):
